@@ -256,11 +256,7 @@ func (x *ngen) items(hdr []col, outPrefix string) []nitem {
 	n := 1 + g.Intn(4)
 	items := make([]nitem, n)
 	for i := range items {
-		if g.Intn(4) == 0 {
-			items[i] = nitem{e: expr{isCol: true, idx: g.Intn(len(hdr))}}
-		} else {
-			items[i] = nitem{e: x.named(hdr)}
-		}
+		items[i] = nitem{e: x.named(hdr)}
 		items[i].out = outPrefix + strconv.Itoa(i+1)
 	}
 	return items
@@ -553,7 +549,8 @@ func precedenceSessions(g *hc.Gen, o *hc.Out, n int) {
 		}
 		x.lits = []value.Primary{value.NewInteger(0), value.NewInteger(1), value.NewInteger(2), value.NewInteger(101), value.NewString("t1"), value.NewString("f0"), value.NewInteger(51)}
 		refName := func() string {
-			if g.Intn(6) == 0 {
+			// (a file name is matched by the file system: case-sensitive; CTEs and temporary tables are not)
+			if g.Intn(6) == 0 && (!hasFile || hasTemp) {
 				return strings.ToUpper(name)
 			}
 			return name
